@@ -103,7 +103,51 @@ def run(R, tier):
         R.sample({'ops': c['recipe']['ops']})
     R.coverage['traces_validated_against_impl'] = len(cases)
     C.correspond(R, E.HEADER, 'report', cases, 'c08', 'Executor query APIs (get_cell/get_cells/get_sheet), handle_cell, sizes bookkeeping')
+    pipeline_sizes(R)
     R.assumptions += ['TODAY()-containing workbooks are excluded; the generated class is abstract in the Coq model and its purity is checked on the implementation']
+
+
+def pipeline_sizes(R):
+    """Through the real pipeline (xlsx file -> Parser -> Executor): the whole-sheet query has exactly one entry per coordinate of the used
+    range - rows and columns that hold only 0 / FALSE at the end included - and agrees entry by entry with the single-cell query."""
+    import os
+    from openpyxl import Workbook
+    d = os.path.join(C.BUILD, 'c08')
+    os.makedirs(d, exist_ok=True)
+    books = {'Stock': [[5, 7, 0], [3, 0, 0], [0, 0, 0]], 'Flags': [[True, False], [False, False]], 'Mixed': [[1, 'x', 0], [2, None, 0], [None, None, None], [0, None, False]]}
+    wb = Workbook()
+    first = True
+    for t, rows in books.items():
+        ws = wb.active if first else wb.create_sheet()
+        first = False
+        ws.title = t
+        for r, row in enumerate(rows):
+            for c, v in enumerate(row):
+                if v is not None:
+                    ws.cell(row=r + 1, column=c + 1, value=v)
+    path = os.path.join(d, 'sizes_%d.xlsx' % os.getpid())
+    wb.save(path)
+    src = I.Parser().set_excel_file_path(path).disable_safety_check().get_translation()
+    e = I.executor(I.load(src))
+    for i, (t, rows) in enumerate(books.items()):
+        R.count(('pipeline_sizes', t), True)
+        nr = max(r + 1 for r, row in enumerate(rows) for v in row if v is not None)
+        nc = max(c + 1 for row in rows for c, v in enumerate(row) if v is not None)
+        grid = e.get_sheet(t)
+        fail = None
+        if [len(row) for row in grid] != [nc] * nr:
+            fail = 'get_sheet(%r) has rows of lengths %r, the used range of the stored sheet is %d rows x %d columns' % (t, [len(row) for row in grid], nr, nc)
+        else:
+            for r in range(nr):
+                for c in range(nc):
+                    want = rows[r][c] if c < len(rows[r]) else None
+                    one = e.get_cell(I.Cell(i, c, r)).value
+                    got = grid[r][c].value
+                    if E.canon(('ok', one)) != E.canon(('ok', got)) or (want is not None and (type(got) is not type(want) or got != want)):
+                        fail = 'sheet %r, row %d column %d: get_sheet gives %r, get_cell gives %r, the file stores %r' % (t, r + 1, c + 1, got, one, want)
+        if fail:
+            R.violation('through the xlsx pipeline: ' + fail, {'recipe': {'kind': 'pipeline_sizes'}, 'input_found': True})
+            return
 
 
 def replay(R, rp):
@@ -111,6 +155,11 @@ def replay(R, rp):
     if rc is None:
         print('nothing to replay: ' + str(rp.get('broken')))
         return 1
+    if rc.get('kind') == 'pipeline_sizes':
+        pipeline_sizes(R)
+        for w, _ in R.violations:
+            print(w)
+        return 1 if R.violations else 0
     C.build(TARGETS)
     c = make_case(rc)
     rows = C.eval_report(E.HEADER, [c['coq']], 'report', 'c08_replay')
